@@ -122,6 +122,19 @@ __CPROVER_assigns(v->n; n > v->n: v->d)
     v->n = n;
 }
 
+/* assign(n, val): n copies of val (new buffer in the model) */
+void vec_u8_assign_n(struct vec_u8 *v, size_t n, uint8_t val)
+__CPROVER_requires(__CPROVER_rw_ok(v, sizeof(*v)) && n <= VEC_MAX)
+__CPROVER_ensures(v->n == n && __CPROVER_is_fresh(v->d, n))
+__CPROVER_ensures(g_k < n ==> v->d[g_k] == val)
+__CPROVER_assigns(v->n, v->d)
+{
+    uint8_t *nd = (uint8_t *)malloc(n ? n : 1);
+    __CPROVER_assume(nd != 0);
+    memset(nd, val, n);
+    v->d = nd; v->n = n;
+}
+
 static inline void vec_u8_clear(struct vec_u8 *v) { v->n = 0; }
 
 static inline struct vec_u8 *vec_u8_assign_move(struct vec_u8 *v, struct vec_u8 *o)
